@@ -7,9 +7,9 @@ SPEC = {
                  'utils.calc_base_height / _add_sligrolay_information / metarize through the numpy+pandas models; '
                  'independent percentile / look-back / exclusion oracle; height2code in exact binary64; per-path unsat',
     'bounds': {'quick': 'tables of <= 3 hits (<= 2 sets, 2 ceilometers), any heights and times, percentile in [0,100], '
-                        'look-back in (0,100], MAX_HITS_OKTA0 >= 0, exclusion lists [], [a], [a,zz], [a,b]; whole metarize() '
+                        'look-back in (0,100], MAX_HITS_OKTA0 >= 0, exclusion lists [], [a], [a,zz], [a,b]; look-back count in exact binary64 for integer percentages and 1..64 hits; whole metarize() '
                         'for <= 2 hits; height coding for every binary64 in [0,1e5)',
-               'thorough': 'tables of <= 4 hits (exclusion lists [] and [a] at 4 hits); whole metarize() for <= 3 hits'},
+               'thorough': 'tables of <= 4 hits (exclusion lists [] and [a] at 4 hits); look-back count for 1..200 hits; whole metarize() for <= 3 hits'},
     'outside': 'fluffiness finite and non-negative (LOWESS is a stub whose contract says "finite": not claimed); rounding '
                'inside the percentile interpolation (real-number semantics); the percentile clause is asserted when the '
                'selected hits have pairwise distinct times and the look-back keeps at least one hit',
@@ -25,9 +25,25 @@ def h_tail(E, N, C, which):
     return tables.h_metarize(E, N, C, which, 0, 'C04T')
 
 
-def k_lookback(E, n0, n1):  # not registered: one n=50 exploration needs > 15 min of QF_FP queries (see DESIGN.md)
-    """Exact binary64: the number of most recent hits kept by the look-back, for an integer-valued look-back
-    percentage (its documented type) and every hit count in n0..n1, equals floor(n * lookback / 100)."""
+class _Probe:
+    """Stands for the time-ordered heights of a set of n hits: records where the look-back slice starts instead of
+    materialising it (so the count stays a symbolic binary64 integer, no concretisation)."""
+
+    def __init__(self, n, arr):
+        self.n, self.arr, self.start = n, arr, None
+
+    def __len__(self):
+        return self.n
+
+    def __getitem__(self, sl):
+        assert isinstance(sl, slice) and sl.stop is None and sl.step is None
+        self.start = sl.start
+        return self.arr
+
+
+def k_lookback(E, n0, n1):
+    """Exact binary64: the number k of most recent hits kept by the look-back, for an integer-valued look-back
+    percentage (its documented type) and every hit count n in n0..n1, is floor(n * lookback / 100)."""
     import z3
     from symex.core import SymBool
     from ampycloud.utils import utils
@@ -36,15 +52,15 @@ def k_lookback(E, n0, n1):  # not registered: one n=50 exploration needs > 15 mi
     E.assume(And(lb >= 1, lb <= 100, SymBool(z3.fpRoundToIntegral(z3.RNE(), lb.e) == lb.e) if is_sym(lb) else lb == int(lb)))
     cl = []
     for n in range(n0, n1 + 1):
-        kind, res = outcome(utils.calc_base_height, N.array([float(i) for i in range(n)]), lb, 0)
-        if kind != 'ok':
-            cl.append(('look-back of n=%d hits returns' % n, Implies(n * lb >= 100, False)))
+        probe = _Probe(n, N.array([0.0]))
+        kind, res = outcome(utils.calc_base_height, probe, lb, 0)
+        cl.append(('n=%d: calc_base_height returns' % n, kind == 'ok' and probe.start is not None))
+        if kind != 'ok' or probe.start is None:
             continue
-        # with heights 0..n-1 in time order and percentile 0 the result is the oldest hit kept: n - k (0 if k = 0)
-        k = n - fval(res)
+        k = -probe.start          # vals[-k:]
         E.cover('look-back keeps a strict subset', And(k >= 1, k < n))
-        cl.append(('n=%d: kept = floor(n*lookback/100) (all hits when that is 0)' % n,
-                   Or(And(k * 100 <= n * lb, n * lb < (k + 1) * 100, k >= 1), And(n * lb < 100, k == n))))
+        E.cover('look-back of less than one hit (slice -0: means all)', k == 0)
+        cl.append(('n=%d: kept = floor(n*lookback/100)' % n, And(k * 100 <= n * lb, n * lb < (k + 1) * 100)))
     return cl
 
 
@@ -62,5 +78,9 @@ HARNESSES = [
       assumptions=['statsmodels LOWESS replaced by a stub returning arbitrary finite values'],
       doc='whole real metarize(): table sorted by ascending base; coded height is the floor of the base'),
     c18.get_harness('K-height'),
+    H('K-lookback', k_lookback, quick=[(a, a + 7) for a in range(1, 64, 8)], thorough=[(a, a + 7) for a in range(1, 200, 8)],
+      float_model='F', logic='QF_FP', cover=['look-back keeps a strict subset'], query_timeout_ms=600000, slice_s=60,
+      doc='real utils.calc_base_height in exact binary64: the look-back count for every integer percentage 1..100 and n hits '
+          '(the slice start is captured by a probe object, so the count stays symbolic)'),
 ]
 get_harness = make_get(HARNESSES)
